@@ -194,7 +194,9 @@ PipelineResult runPipeline(const std::string &input, const PipelineOptions &opt)
         annotator->setModel(cl);
         bool ok = annotator->assignAllIds();
         monitorLogger(*annotator, "Annotator::assignAllIds", opt.replay);
-        monitorExplained(!ok, *annotator, "Annotator::assignAllIds", opt.replay);
+        // false is not a failure here: "true if at least one identifier was assigned" (a model whose every item
+        // already carries an id yields false and nothing to explain)
+        (void)ok;
         (void)annotator->ids();
         (void)annotator->duplicateIds();
     }
